@@ -131,6 +131,10 @@ def stepLine (st : St) (line : String) : St × String :=
   | ["create", _v] =>
     let s : SState := { base := State.create, handles := [], maxBuf := CfbVerif.Gen.DEFAULT_STREAM_MAX_BUFFER_SIZE }
     ({ s := s, live := true }, "ok | " ++ tail s)
+  | ["create", _v, mb] =>
+    -- a history that names its stream buffer size
+    let s : SState := { base := State.create, handles := [], maxBuf := mb.toNat?.getD CfbVerif.Gen.DEFAULT_STREAM_MAX_BUFFER_SIZE }
+    ({ s := s, live := true }, "ok | " ++ tail s)
   | ["snap", _] => (st, dump st.s.base ++ " | " ++ tail st.s)
   | ws =>
     if !st.live then (st, "err nofile | - | -") else
